@@ -6,7 +6,7 @@ import fcntl, glob, json, os, shutil, subprocess, sys, hashlib
 
 VERIF = os.path.dirname(os.path.abspath(__file__))
 REPO = os.environ.get("VERIF_REPO", "/repo")
-BUILD = os.path.join(VERIF, "build")
+BUILD = os.environ.get("VERIF_BUILD", os.path.join(VERIF, "build"))
 GO = "go1.26.8"
 
 def goenv():
